@@ -49,6 +49,7 @@ type c31Plan struct {
 	KexDelay    []int       `json:"kex_delay"`    // per Go KEXINIT (cyclic): 0 none, 1 hold the reply until the Go writers stall, 2 yields
 	Yield       int         `json:"yield"`
 	WriterYield int         `json:"writer_yield"` // Go writers: 0 never yield, 1 after every packet, 2 after every 4th
+	Marathon    bool        `json:"marathon,omitempty"`
 	Seed        uint64      `json:"seed"`
 }
 
@@ -546,6 +547,9 @@ func (r *c31Run) spanning() int {
 
 func c31Classes(p *c31Plan, st c31Stats) []string {
 	cl := []string{"mode=" + p.Mode, fmt.Sprintf("threshold=%d", p.Threshold), fmt.Sprintf("writers=%d", len(p.Writers)), fmt.Sprintf("procs=%d", p.Procs), fmt.Sprintf("cap=%d", p.Cap)}
+	if p.Marathon {
+		cl = append(cl, "history:marathon-thousands-of-packets-at-threshold-256")
+	}
 	if st.rekeyWhile2 {
 		cl = append(cl, "history:rekey-while-2-writers")
 	}
@@ -1073,6 +1077,33 @@ func runC31GoGo(p *c31Plan) (string, c31Stats, error) {
 	return "", st, nil
 }
 
+// c31Marathon builds a long Go<->Go history: one connection, the minimum
+// RekeyThreshold, several paced writers sending thousands of small numbered
+// packets, i.e. hundreds to thousands of re-keys each of which ends while
+// writers are in the middle of their sequences.  It exists for interleavings
+// that need volume (a writer's next write landing exactly at the end of a key
+// exchange); k selects the variant.
+func c31Marathon(seed uint64, k int) *c31Plan {
+	x := seed*0x9e3779b97f4a7c15 + uint64(k)*0xbf58476d1ce4e5b9
+	next := func(n int) int {
+		x ^= x >> 29
+		x *= 0x94d049bb133111eb
+		x ^= x >> 32
+		return int(x % uint64(n))
+	}
+	p := &c31Plan{Mode: "gogo", Marathon: true, Threshold: 256, Threshold2: []uint64{256, 256, 1024, 0}[next(4)], Procs: []int{2, 4, 16}[next(3)], Seed: x}
+	nw := 2 + next(5)
+	per := ev.Scale(6000, 16000) / nw
+	for i := 0; i < nw; i++ {
+		p.Writers = append(p.Writers, c31Writer{Kind: []string{"greq", "greq", "chreq", "chdata"}[next(4)], N: per, Size: 8 + next(20)})
+	}
+	for i, n := 0, next(3); i < n; i++ {
+		p.PeerWriters = append(p.PeerWriters, c31Writer{Kind: "greq", N: per / 4, Size: 8 + next(20)})
+	}
+	p.WriterYield = []int{1, 1, 2, 0}[next(4)]
+	return p
+}
+
 func runC31(p *c31Plan) (string, c31Stats, error) {
 	old := runtime.GOMAXPROCS(p.Procs)
 	defer runtime.GOMAXPROCS(old)
@@ -1160,6 +1191,11 @@ func TestC31(t *testing.T) {
 			runOne(&doc.Case)
 		}
 	} else {
+		// long histories first (volume of "writer keeps writing across the end of a key exchange")
+		shard, _ := ev.Shard()
+		for k := 0; k < ev.Scale(2, 10) && failed == "" && inconc == nil; k++ {
+			runOne(c31Marathon(ev.Seed(), shard*100+k))
+		}
 		rapid.Check(t, func(rt *rapid.T) {
 			p := genC31Plan(rt)
 			if failed != "" || inconc != nil {
